@@ -17,7 +17,7 @@ Definition Rops : ops R :=
   {| f0 := 0; f1 := 1; f2 := 2; fhalf := / 2; fisq2 := / sqrt 2; fpi := PI;
      fadd := Rplus; fsub := Rminus; fmul := Rmult; fdiv := Rdiv; fneg := Ropp;
      fsqrt := sqrt; fcos := cos; fsin := sin;
-     fleb := R_leb; fltb := R_ltb; feqb := R_eqb;
+     fleb := R_leb; fltb := R_ltb; feqb := R_eqb; fapprox := R_eqb;
      fofN := fun n => IZR (Z.of_N n);
      fround := R_round;
      ffinite := fun _ => true |}.
